@@ -62,7 +62,7 @@ class C20(Prop):
             elif k == 'hstream':
                 c.update(count=rng.choice([0, 1, 3, 7]), error_at=rng.choice([None, None, 0, 2]), factory=rng.random() < 0.4, n0=rng.choice([1, 2, 4]),
                          more=[rng.choice([1, 2, 3]) for _ in range(rng.randint(0, 4))], together=rng.random() < 0.35)
-                if c['factory']:
+                if c['factory'] and rng.random() < 0.5:
                     c['error_at'] = None
             elif k == 'honeway':
                 c.update(op=rng.choice(['fnf', 'mp', 'setup']))
@@ -264,8 +264,10 @@ class C20(Prop):
             return rx.concat(rx.from_iterable(items[:case['error_at']]), rx.throw(RuntimeError('boom')))
 
         async def agen():
-            for it in items:
+            for it in (items if case['error_at'] is None else items[:case['error_at']]):
                 yield it
+            if case['error_at'] is not None:
+                raise RuntimeError('boom')      # the application's generator fails after error_at elements
 
         class D(L[4]):
             async def request_stream(self, payload):
@@ -451,7 +453,7 @@ class C20(Prop):
                 for c in exp:
                     need.append(c)
                     acc += c
-                    if acc > case['count']:
+                    if acc > n_ok:
                         break
                 if got[:len(need)] != need or got != exp[:len(got)]:
                     add('factory-credits-altered', 'credits %s reached the observable factory as %s' % (exp, got))
